@@ -49,6 +49,7 @@ type c12Result struct {
 	PartCalls int          `json:"part_calls"`
 	AddrErr   string       `json:"addr_err,omitempty"`
 	Addrs     int          `json:"addrs"`
+	CPUMillis int64        `json:"cpu_ms"` // CPU time of the process spent on this input
 }
 
 func c12Child(args []string) int {
@@ -70,6 +71,7 @@ func c12Child(args []string) int {
 		os.Stdout.WriteString("BEGIN " + name + "\n")
 
 		res := c12Result{Name: name}
+		cpu0 := cpuMillis()
 
 		if strings.Contains(name, "addr") {
 			list, err := rfc5322.ParseAddressList(string(data))
@@ -81,6 +83,8 @@ func c12Child(args []string) int {
 		} else {
 			c12One(data, &res)
 		}
+
+		res.CPUMillis = cpuMillis() - cpu0
 
 		b, _ := json.Marshal(res)
 		os.Stdout.WriteString("RESULT " + string(b) + "\n")
@@ -116,34 +120,46 @@ func c12One(data []byte, res *c12Result) {
 		return int64(uintptr(unsafe.Pointer(unsafe.SliceData(b)))) - int64(base)
 	}
 
-	if err := root.Walk(func(s *rfc822.Section) error {
-		if len(res.Sections) >= 3000 {
+	// Walk by hand: the parent of a part is the section whose Children() returned it. (Section.Identifier() is not
+	// used: siblings can end up sharing one identifier slice.)
+	var walk func(sec *rfc822.Section, path []int, parentOff int64, parentLen int) error
+
+	walk = func(sec *rfc822.Section, path []int, parentOff int64, parentLen int) error {
+		if len(res.Sections) >= 3000 || len(path) > 64 {
 			return nil
 		}
 
-		lit := s.Literal()
-		id := s.Identifier()
-		sec := c12Section{Path: append([]int{}, id...), Off: off(lit), Len: len(lit), HdrLen: len(s.Header()), BodyLen: len(s.Body())}
+		lit := sec.Literal()
+		body := sec.Body()
+		entry := c12Section{Path: append([]int{}, path...), Off: off(lit), Len: len(lit), ParentOff: parentOff, ParentLen: parentLen, HdrLen: len(sec.Header()), BodyLen: len(body)}
 
-		if len(id) > 0 {
-			if parent, err := root.Part(id[:len(id)-1]...); err == nil && parent != nil {
-				pb := parent.Body()
-				sec.ParentOff, sec.ParentLen = off(pb), len(pb)
-
-				if len(pb) == 0 {
-					sec.ParentOff = sec.Off
-				}
-			}
-		} else {
-			sec.ParentOff, sec.ParentLen = 0, len(data)
+		if parentLen == 0 {
+			entry.ParentOff = entry.Off
 		}
 
-		res.Sections = append(res.Sections, sec)
+		res.Sections = append(res.Sections, entry)
+
+		children, err := sec.Children()
+		if err != nil {
+			return err
+		}
+
+		for i, ch := range children {
+			if err := walk(ch, append(append([]int{}, path...), i+1), off(body), len(body)); err != nil {
+				return err
+			}
+		}
 
 		return nil
-	}); err != nil {
+	}
+
+	if err := walk(root, nil, 0, len(data)); err != nil {
 		res.WalkErr = err.Error()
 	}
+
+	// the library's own Walk has to survive the input as well
+	visited := 0
+	_ = root.Walk(func(*rfc822.Section) error { visited++; return nil })
 
 	// part addressing as FETCH BODY[p] does it, also for parts that do not exist
 	for a := 0; a <= 3; a++ {
@@ -807,7 +823,7 @@ func compareStructure(n *pNode, p *mimePart, path string) error {
 // ---- the check ---------------------------------------------------------------------------------------
 
 func runC12(r *ev.Run) {
-	r.SetRule("inputs: generated MIME trees (structure known by construction), mutations of them (bit flips, cuts, duplications, inserted tokens, truncation, LF / bare CR line ends, NUL and list-syntax bytes), token soup of MIME/header fragments, header-field edge cases (blanks after the colon, empty or blank first line, CRLF/LF/CR ends, folds, blank continuation lines for every field ENVELOPE and BODYSTRUCTURE read), random bytes, deep nesting (multipart and message/rfc822 up to 1500 levels quick / 20000 thorough), very wide multiparts, huge header lines, and address-list soup for rfc5322.ParseAddressList. A child process runs imap.NewParsedMessage, rfc822.Parse/Walk/Part (incl. part paths that do not exist) on each input and logs BEGIN/RESULT lines; the parent decides: the child must not die or hang on any input; ENVELOPE / BODY / BODYSTRUCTURE must read as strict parenthesised lists (balanced, quoted strings without CR/LF/NUL and with proper escapes, literals of the announced length, single spaces) of the ENVELOPE (10 fields, address 4-tuples) and body shapes; every walked part must lie inside the message and inside its parent's body; for generated messages the structure must equal the tree (types, parameters, sizes, line counts, nesting). distinct = distinct (input kind, outcome, structure shape class) tuples")
+	r.SetRule("inputs: generated MIME trees (structure known by construction), mutations of them (bit flips, cuts, duplications, inserted tokens, truncation, LF / bare CR line ends, NUL and list-syntax bytes), token soup of MIME/header fragments, header-field edge cases (blanks after the colon, empty or blank first line, CRLF/LF/CR ends, folds, blank continuation lines for every field ENVELOPE and BODYSTRUCTURE read), random bytes, deep nesting in doubling series (message/rfc822 to 2000 / 4000 levels, multiparts to 1500 / 20000 levels), very wide multiparts, huge header lines, and address-list soup for rfc5322.ParseAddressList. A child process runs imap.NewParsedMessage, rfc822.Parse/Walk/Part (incl. part paths that do not exist) on each input and logs BEGIN/RESULT lines; the parent decides: the child must not die or hang on any input; ENVELOPE / BODY / BODYSTRUCTURE must read as strict parenthesised lists (balanced, quoted strings without CR/LF/NUL and with proper escapes, literals of the announced length, single spaces) of the ENVELOPE (10 fields, address 4-tuples) and body shapes; every walked part must lie inside the message and inside its parent's body; for generated messages the structure must equal the tree (types, parameters, sizes, line counts, nesting); the CPU time per input (reported by the child) may not more than triple when the nesting depth doubles. distinct = distinct (input kind, outcome, structure shape class) tuples")
 	r.Assume("a non-terminating parse is reported only after the single input, re-run alone in a fresh process, still has not finished after 60 s (inputs are below 3 MB); an error return from NewParsedMessage is a legitimate outcome for malformed input")
 
 	rng := r.Rand("inputs")
@@ -852,11 +868,21 @@ func runC12(r *ev.Run) {
 		add("random", b, nil)
 	}
 
-	for _, d := range []int{1, 2, 10, 100, 400, maxDepth} {
+	// doubling series: besides crash/hang they feed the cost monitor (CPU time per input as the child reports it)
+	depths := []int{1, 2, 10, 125, 250, 500, 1000, 2000}
+	if maxDepth > 2000 {
+		depths = append(depths, 4000)
+	}
+
+	for _, d := range depths {
 		for k := 0; k < 3; k++ {
 			add(fmt.Sprintf("deep%d-%d", k, d), c12Deep(rng, d, k), nil)
 		}
 	}
+
+	// multiparts are cheap: they go much deeper
+	add(fmt.Sprintf("deep0-%d", maxDepth), c12Deep(rng, maxDepth, 0), nil)
+	add(fmt.Sprintf("deep2-%d", maxDepth*5), c12Deep(rng, maxDepth*5, 2), nil)
 
 	add("longline", []byte("From: a@b.c\r\nSubject: "+strings.Repeat("x", 1<<20)+"\r\nDate: Mon, 02 Jan 2006 15:04:05 +0000\r\n\r\nbody"), nil)
 	add("manyheaders", []byte(strings.Repeat("X-H: v\r\n", 50000)+"\r\nbody"), nil)
@@ -963,6 +989,46 @@ func runC12(r *ev.Run) {
 			}
 
 			r.Violate(sig, fmt.Sprintf("the parsers did not survive input %s (%d bytes): %s", name, len(in.data), firstLine(crashInfo[bi][name])), name, map[string]any{"input_base64": base64.StdEncoding.EncodeToString(truncBytes(in.data, 200000)), "stderr": crashInfo[bi][name]})
+		}
+	}
+
+	// cost monitor: CPU time against nesting depth. Doubling the depth may double the work, not quadruple it.
+	type costPoint struct {
+		depth int
+		cpu   int64
+	}
+
+	series := map[string][]costPoint{}
+
+	for bi := range results {
+		for name, res := range results[bi] {
+			if i := strings.Index(name, "-deep"); i >= 0 {
+				var kind, depth int
+				if _, err := fmt.Sscanf(name[i+1:], "deep%d-%d", &kind, &depth); err == nil {
+					k := []string{"nested multipart", "nested message/rfc822", "wide multipart"}[kind]
+					series[k] = append(series[k], costPoint{depth, res.CPUMillis})
+				}
+			}
+		}
+	}
+
+	for kind, pts := range series {
+		sort.Slice(pts, func(i, j int) bool { return pts[i].depth < pts[j].depth })
+
+		var desc []string
+		for _, p := range pts {
+			desc = append(desc, fmt.Sprintf("%d levels: %d ms", p.depth, p.cpu))
+		}
+
+		r.Set("cpu_by_depth "+kind, desc)
+
+		for i := 0; i+1 < len(pts); i++ {
+			a, b := pts[i], pts[i+1]
+			if b.depth == 2*a.depth && a.cpu >= 1000 && b.cpu >= 3*a.cpu+200 {
+				r.Violate("C12 superlinear-cost "+kind, fmt.Sprintf("structure/envelope computation of %s: %d levels cost %d ms CPU, %d levels %d ms (x%.1f for twice the input): at this rate a message of a few MB keeps a CPU busy for hours", kind, a.depth, a.cpu, b.depth, b.cpu, float64(b.cpu)/float64(a.cpu)), "cost-"+kind, map[string]any{"cpu_by_depth": desc})
+
+				break
+			}
 		}
 	}
 
